@@ -823,6 +823,7 @@ func (s *IndexedState) FindCachedRules(ctx *Context, event Map) (map[string]*Rul
 				Log(WARN, ctx, "IndexedState.FindCachedRules", "ruleId", id, "error", err)
 				continue
 			}
+			rule.Id = id
 			acc[id] = rule
 			s.cachedRules[id] = rule
 		}
